@@ -171,6 +171,17 @@ func coherenceProblems(cat *lungo.Catalog) []problem {
 			if len(fl) != len(list) {
 				out = append(out, problem{"index:rebuild-differs:" + name, fmt.Sprintf("%s.%s has %d entries, rebuilt %d", h.String(), name, len(list), len(fl))})
 			}
+			// the entries are exactly the keys of the current contents of the documents: removing every document from a
+			// copy of the index (removal goes by the keys the document has now) succeeds and leaves nothing behind
+			cp := idx.Clone()
+			for _, d := range list {
+				if ok, err := cp.Remove(d); err != nil || !ok {
+					out = append(out, problem{"index:entry-not-under-current-keys:" + name, fmt.Sprintf("%s.%s: document %s is listed but not found under the keys it has now (ok=%v err=%v)", h.String(), name, J(*d), ok, err)})
+				}
+			}
+			if rest := cp.List(); len(rest) > 0 {
+				out = append(out, problem{"index:stale-keys:" + name, fmt.Sprintf("%s.%s keeps entries for %s under keys the document no longer has", h.String(), name, J(*rest[0]))})
+			}
 		}
 	}
 	return out
